@@ -652,6 +652,18 @@ func (p *c20Priv) exec(line string, f []string) string {
 		return "ok"
 	case "ext":
 		return p.execExt(line, f)
+	case "signer":
+		if len(f) != 2 {
+			return "bad-op"
+		}
+		for _, ku := range p.customMsgKeys() {
+			if ku[0] == f[1] {
+				p.s.seq = append(p.s.seq, "signer:"+f[1])
+				p.s.r.Hit("priv/signer-field-probed")
+				return p.probeSigner(ku[1])
+			}
+		}
+		return "?"
 	}
 	// priv <key> <obj> <signer> <valid> <newOwner>
 	if len(f) != 6 {
@@ -844,14 +856,24 @@ func (p *c20Priv) generate(run func(string) string, nOps int) {
 			}
 		}
 	}
+	// the signer field of every routed custom-module message (ties the translator's descriptor decoding)
+	if !p.s.signersDone {
+		p.s.signersDone = true
+		for _, ku := range p.customMsgKeys() {
+			run("signer " + ku[0])
+		}
+	}
 	// every routed Authority-carrying message type, zero content, unprivileged signers
+	allMods := !p.s.extAllDone || p.s.r.Thorough()
+	p.s.extAllDone = true
 	for _, url := range p.ext {
-		for j := 0; j < 2; j++ {
-			tok := fmt.Sprintf("a%d", g.Intn(c20Actors))
-			if j == 1 {
-				tok = fmt.Sprintf("m%d", g.Intn(len(p.mods)))
+		run("ext " + url + " " + fmt.Sprintf("a%d", g.Intn(c20Actors)))
+		if allMods { // every module account (first trace of a quick run, every trace of a thorough one)
+			for j := range p.mods {
+				run(fmt.Sprintf("ext %s m%d", url, j))
 			}
-			run("ext " + url + " " + tok)
+		} else {
+			run(fmt.Sprintf("ext %s m%d", url, g.Intn(len(p.mods))))
 		}
 	}
 	for i := 0; i < nOps; i++ {
@@ -923,4 +945,113 @@ func (p *c20Priv) finish() {
 	p.s.r.Set("priv-kinds-never-accepted-from-privileged", nopos)
 	p.s.r.Set("priv-last-dry-run-error-per-kind", p.s.ctrlErr)
 	p.s.r.Set("ext-authority-message-types", len(p.ext))
+}
+
+// ---- signer fields: which Go field of a custom message names its signer, found by probing -------
+
+func c20CustomKey(m any) (string, bool) {
+	t := reflect.TypeOf(m)
+	for t.Kind() == reflect.Ptr {
+		t = t.Elem()
+	}
+	const pre = "github.com/dymensionxyz/dymension/v3/x/"
+	if !strings.HasPrefix(t.PkgPath(), pre) {
+		return "", false
+	}
+	mod := strings.Split(strings.TrimPrefix(t.PkgPath(), pre), "/")[0]
+	return mod + "." + t.Name(), true
+}
+
+// signersOf asks the application codec (cosmos.msg.v1.signer / custom signers) and, when that
+// knows nothing about the type, the message's own legacy GetSigners
+func (p *c20Priv) signersOf(m sdk.Msg) (out [][]byte) {
+	defer func() {
+		if recover() != nil {
+			out = nil
+		}
+	}()
+	if gm, ok := m.(gogoproto.Message); ok {
+		if s, _, err := p.f.App.AppCodec().GetMsgV1Signers(gm); err == nil {
+			return s
+		}
+	}
+	if lm, ok := m.(interface{ GetSigners() []sdk.AccAddress }); ok {
+		for _, a := range lm.GetSigners() {
+			out = append(out, a)
+		}
+	}
+	return out
+}
+
+func (p *c20Priv) probeSigner(url string) string {
+	reg := p.f.App.InterfaceRegistry()
+	addr := Actor(7)
+	fresh := func() (sdk.Msg, reflect.Value, bool) {
+		pm, err := reg.Resolve(url)
+		if err != nil {
+			return nil, reflect.Value{}, false
+		}
+		sm, ok := pm.(sdk.Msg)
+		return sm, reflect.ValueOf(pm).Elem(), ok
+	}
+	is := func(m sdk.Msg) bool {
+		s := p.signersOf(m)
+		return len(s) == 1 && string(s[0]) == string(addr)
+	}
+	_, v0, ok := fresh()
+	if !ok {
+		return "?"
+	}
+	t := v0.Type()
+	for i := 0; i < t.NumField(); i++ {
+		ft := t.Field(i)
+		switch {
+		case ft.Type.Kind() == reflect.String:
+			m, v, _ := fresh()
+			v.Field(i).SetString(addr.String())
+			if is(m) {
+				return ft.Name
+			}
+		case ft.Type.Kind() == reflect.Ptr && ft.Type.Elem().Kind() == reflect.Struct, ft.Type.Kind() == reflect.Struct:
+			st := ft.Type
+			if st.Kind() == reflect.Ptr {
+				st = st.Elem()
+			}
+			for j := 0; j < st.NumField(); j++ {
+				if st.Field(j).Type.Kind() != reflect.String || !st.Field(j).IsExported() {
+					continue
+				}
+				m, v, _ := fresh()
+				fv := v.Field(i)
+				if fv.Kind() == reflect.Ptr {
+					fv.Set(reflect.New(st))
+					fv = fv.Elem()
+				}
+				fv.Field(j).SetString(addr.String())
+				if is(m) {
+					return ft.Name + "." + st.Field(j).Name
+				}
+			}
+		}
+	}
+	return "?"
+}
+
+func (p *c20Priv) customMsgKeys() [][2]string {
+	var out [][2]string
+	reg := p.f.App.InterfaceRegistry()
+	for _, url := range reg.ListImplementations(sdk.MsgInterfaceProtoName) {
+		if p.f.App.MsgServiceRouter().HandlerByTypeURL(url) == nil {
+			continue
+		}
+		m, err := reg.Resolve(url)
+		if err != nil {
+			continue
+		}
+		if k, ok := c20CustomKey(m); ok {
+			out = append(out, [2]string{k, url})
+		}
+	}
+	sort.Slice(out, func(i, j int) bool { return out[i][0] < out[j][0] })
+	return out
 }
